@@ -16,7 +16,7 @@ LEVELS = {
  "C14": "proof",
  "C15": "proof",
  "C16": "proof",
- "C17": "proof",
+ "C17": "other",
  "C18": "proof",
  "C19": "other",
  "C20": "other"
